@@ -33,7 +33,7 @@ func (c09) Assumptions() []string {
 
 func (c09) Batches(tier string, seed uint64) []core.Batch {
 	var b []core.Batch
-	for _, k := range []string{"scalars", "lists", "nested", "ptr", "required", "pass"} {
+	for _, k := range []string{"scalars", "lists", "nested", "ptr", "required", "pass", "setupdate"} {
 		b = append(b, spread(k, 3, tierN(tier, 3000, 15000))...)
 	}
 	return b
@@ -43,7 +43,7 @@ func (c09) Mandatory(tier string) []string {
 	return []string{"kind:string", "kind:int-negative", "kind:int-zero", "kind:uint>=2^63", "kind:bool-true", "kind:bool-false", "tag:control-name", "tag:skip", "tag:multiline",
 		"tag:required-present", "tag:required-empty-written", "required-missing-rejected", "list:default-delim", "list:comma", "list:comma-space", "list:newline", "list:empty-omitted",
 		"list:required-empty", "list:ints", "list:versions", "list:archs", "nested:version", "nested:dependency", "nested:arch", "nested:checksums", "ptr:nil", "ptr:non-nil",
-		"pass:unknown-kept", "pass:overwritten", "pass:cleared", "pass:newly-set", "pass:documents", "pass:marshal-twice", "pass:clear-marshal-set-marshal", "pass:late-embedded-cleared", "pass:all-omittable-struct"}
+		"pass:unknown-kept", "pass:overwritten", "pass:cleared", "pass:newly-set", "pass:documents", "pass:marshal-twice", "pass:clear-marshal-set-marshal", "pass:late-embedded-cleared", "pass:all-omittable-struct", "setupdate"}
 }
 
 // ---- probe types ----
@@ -803,6 +803,16 @@ func (p c09) RunBatch(t *core.T, b core.Batch) {
 		case "required":
 			present, which := r.Bool(), r.Intn(3)
 			t.Case("required", []byte(fmt.Sprintf("%v/%d", present, which)), func(c *core.C) { p.required(c, present, which) })
+		case "setupdate":
+			// Paragraph.Set / Paragraph.Update against a plain ordered-map model
+			n1, n2 := r.Range(0, 5), r.Range(0, 5)
+			keys := []string{"A", "B", "C", "D", "E", "F", "X-1", "X-2"}
+			var ops [][2]string
+			for k := 0; k < n1+n2; k++ {
+				ops = append(ops, [2]string{r.Pick(keys), word(r)})
+			}
+			in, _ := json.Marshal(map[string]interface{}{"ops": ops, "n1": n1})
+			t.Case("setupdate", in, func(c *core.C) { p.setUpdate(c, ops, n1) })
 		case "pass":
 			cs := p.genPass(r)
 			in, _ := json.Marshal(cs)
@@ -811,7 +821,70 @@ func (p c09) RunBatch(t *core.T, b core.Batch) {
 	}
 }
 
+type omap struct {
+	order []string
+	vals  map[string]string
+}
+
+func (m *omap) set(k, v string) {
+	if _, ok := m.vals[k]; !ok {
+		m.order = append(m.order, k)
+	}
+	m.vals[k] = v
+}
+
+// setUpdate: the first n1 operations build paragraph P with Set, the rest build Q; then P.Update(Q).
+func (p c09) setUpdate(c *core.C, ops [][2]string, n1 int) {
+	P := control.Paragraph{Values: map[string]string{}}
+	Q := control.Paragraph{Values: map[string]string{}}
+	mp, mq := &omap{vals: map[string]string{}}, &omap{vals: map[string]string{}}
+	for i, op := range ops {
+		if i < n1 {
+			P.Set(op[0], op[1])
+			mp.set(op[0], op[1])
+		} else {
+			Q.Set(op[0], op[1])
+			mq.set(op[0], op[1])
+		}
+	}
+	if !eqLines(P.Order, mp.order) || !reflect.DeepEqual(P.Values, mp.vals) {
+		c.Failf("Paragraph.Set sequence %v gives Order %q Values %v; an ordered map gives %q %v", ops[:n1], P.Order, P.Values, mp.order, mp.vals)
+	}
+	pOrder := append([]string{}, P.Order...)
+	U := P.Update(Q)
+	want := &omap{vals: map[string]string{}}
+	for _, k := range mp.order {
+		want.set(k, mp.vals[k])
+	}
+	for _, k := range mq.order {
+		want.set(k, mq.vals[k])
+	}
+	if !eqLines(U.Order, want.order) || !reflect.DeepEqual(U.Values, want.vals) {
+		c.Failf("P.Update(Q) with P=%q%v Q=%q%v gives Order %q Values %v; want %q %v", mp.order, mp.vals, mq.order, mq.vals, U.Order, U.Values, want.order, want.vals)
+	}
+	if !eqLines(P.Order, pOrder) || !reflect.DeepEqual(P.Values, mp.vals) || !reflect.DeepEqual(Q.Values, mq.vals) {
+		c.Failf("Paragraph.Update modified one of its operands")
+	}
+	U.Set("ZZ", "1")
+	if _, leaked := P.Values["ZZ"]; leaked {
+		c.Failf("the result of Update shares its Values map with the receiver")
+	}
+	c.Cover("setupdate")
+	c.Nontrivial()
+}
+
 func (p c09) RunCase(t *core.T, kind string, input []byte) {
+	switch kind {
+	case "setupdate":
+		var cs struct {
+			Ops [][2]string `json:"ops"`
+			N1  int         `json:"n1"`
+		}
+		if json.Unmarshal(input, &cs) == nil && cs.N1 <= len(cs.Ops) {
+			t.Case(kind, input, func(c *core.C) { p.setUpdate(c, cs.Ops, cs.N1) })
+		}
+		return
+	}
 	switch kind {
 	case "scalars":
 		var v prScalars
